@@ -724,7 +724,10 @@ class SK(object):
                 continue
             for st in ci.node.body:
                 if isinstance(st, ast.Assign) and any(isinstance(t, ast.Name) and t.id == name for t in st.targets):
-                    return self.ev(st.value, {'__mod__': k[0]})
+                    memo = self.__dict__.setdefault('_clsvals', {})
+                    if (k, name) not in memo:           # evaluated once, when the class body runs: every instance sees the very same object
+                        memo[(k, name)] = self.ev(st.value, {'__mod__': k[0]})
+                    return memo[(k, name)]
         return NOATTR
 
     def arith(self, op, a, b, node):
@@ -1496,7 +1499,7 @@ BUILTINS = {
     'isinstance': Py(_isinst, 'isinstance'), 'list': Py(lambda sk, n, *a: list(sk.iterate(a[0], n)) if a else [], 'list'), 'tuple': Py(lambda sk, n, *a: tuple(sk.iterate(a[0], n)) if a else (), 'tuple'),
     'shallowcopy': Py(_shallowcopy, 'copy.copy'), 'id': Py(lambda sk, n, x: id(x), 'id'), 'setattr': Py(lambda sk, n, ob, k, v: _setattr(sk, n, ob, k, v), 'setattr'),
     'getattr': Py(lambda sk, n, ob, k, *d: _getattr(sk, n, ob, k, *d), 'getattr'),
-    'hasattr': Py(lambda sk, n, ob, k: isinstance(ob, Bag) and k in ob._a, 'hasattr'),
+    'hasattr': Py(lambda sk, n, ob, k: isinstance(ob, Bag) and (k in ob._a or (isinstance(ob._cls, tuple) and isinstance(k, str) and (sk.class_attr(ob._cls, k) is not NOATTR or sk.m.lookup(ob._cls, k, 'methods') is not None or sk.m.lookup(ob._cls, k, 'getters') is not None))), 'hasattr'),
     'dict': Py(lambda sk, n, *a, **k: dict(*a, **k), 'dict'), 'deepcopy': Py(_deepcopy_tracked, 'deepcopy'),
     'divmod': Py(lambda sk, n, a, b: divmod(a, b) if all(isinstance(x, (int, float)) and not isinstance(x, bool) for x in (a, b)) else DEF(), 'divmod'),
     'sum': Py(_sum, 'sum'), 'reversed': Py(lambda sk, n, x: list(reversed(x)), 'reversed'), 'sorted': Py(lambda sk, n, x, **k: _sorted(sk, n, x, **k), 'sorted'),
